@@ -7,7 +7,7 @@
                            NOT PROVED.  Proved parts: the two matrix transformations of algorithm U are exact
                            (C14_specialize_exact_partial, C14_default_exact_partial, C14_default_sound_partial),
                            the integer signature test and the missing-range computation are exact
-                           (C14_ranges_cover_exact, C14_exclusionary_exact) on what reaches them
+                           (C14_ranges_cover_exact, C14_exclusionary_exact, C14_complete_signature_exact) on what reaches them
                            (C14_from_scrutinee_singletons, C14_specialize_keeps_singletons, C14_sigma_singletons).
                            Missing: the induction over the recursion of is_useful that assembles them
                            (typing of specialised rows, complete_loop / is_useful_or invariants, witness stacks).
@@ -15,7 +15,7 @@
                            NOT PROVED for the model.  They are decided per generated match by the brute-force
                            oracle, which IS proved exact (the C14_oracle_ theorems), and every case judged 0 is an instance
                            of all four statements (C14_judged_case_sound).                                        *)
-From SwayV Require Import Base.Util C14.Model C14.Spec C14.Basics C14.Ranges C14.Useful C14.Judge C14.JudgeSound.
+From SwayV Require Import Base.Util C14.Model C14.Spec C14.Basics C14.Ranges C14.Useful C14.Complete C14.Judge C14.JudgeSound.
 Local Open Scope N_scope.
 
 (* ---- the brute-force oracle is exact (S only) ---- *)
@@ -83,6 +83,15 @@ Print Assumptions C14_specialize_keeps_singletons.
 Theorem C14_sigma_singletons : forall p, singb p = true -> Forall root_sing (roots p).
 Proof. exact roots_sing. Qed.
 Print Assumptions C14_sigma_singletons.
+
+(* is_complete_signature on a non-empty Σ of root constructors of the column type: never an internal error,
+   and true exactly when every value of the type has its head constructor in Σ (bool, every integer
+   width, enums, tuples/structs) *)
+Theorem C14_complete_signature_exact : forall t sigma,
+  payloads_inhabited t -> sigma <> [] -> Forall (root_ok t) sigma ->
+  exists b, is_complete_signature t sigma = Ok b /\ (b = true <-> covers sigma t).
+Proof. exact complete_signature_exact. Qed.
+Print Assumptions C14_complete_signature_exact.
 
 (* ---- the matrix transformations of algorithm U ---- *)
 Theorem C14_specialize_exact_partial : forall c v rest vs, is_root c -> matches c v = true ->
